@@ -40,7 +40,7 @@ def check_target(ck, row, t, label):
 
 
 def label_of(row):
-    if row["op"] in ("coins", "ool", "pair", "umad_empty", "ool_long"):
+    if row["op"] in ("coins", "ool", "pair", "umad_empty", "ool_long", "marginal"):
         return f"{row['op']}:rate{row['a']}/{row['D']}:n{row['n']}"
     if row["op"] == "umad":
         return f"umad:add{row['addA']}/{row['D']}:del{row['delA']}/{row['D']}"
